@@ -121,13 +121,16 @@ def entangling_prefix(rng, n):
     return cmds
 
 
-def _param(p):
+def _param(p, regs=None):
     if isinstance(p, dict) and "re" in p:
         return complex(p["re"], p["im"])
+    if isinstance(p, dict) and "par" in p:
+        # a measured parameter: mul * q[par].par (+ add)
+        return p.get("mul", 1.0) * regs[p["par"]].par + p.get("add", 0.0)
     return p
 
 
-def make_op(name, params, dagger=False):
+def make_op(name, params, dagger=False, regs=None):
     if name == "MeasureHomodyneSel":
         return ops.MeasureHomodyne(params[0], select=params[1])
     if name == "MeasureHeterodyneSel":
@@ -137,7 +140,7 @@ def make_op(name, params, dagger=False):
     if name == "GaussianNoDecomp":
         # params = [V (nested list, xxpp order over the listed modes, hbar = 2), r (list)]
         return ops.Gaussian(np.array(params[0], dtype=float), np.array(params[1], dtype=float), decomp=False)
-    op = getattr(ops, name)(*[_param(p) for p in params])
+    op = getattr(ops, name)(*[_param(p, regs) for p in params])
     if dagger:
         op = op.H
     return op
@@ -158,7 +161,7 @@ def build_program(spec, name="p"):
             if name_ == "Del":
                 ops.Del | regs[modes[0]]
                 continue
-            op = make_op(name_, params, dagger)
+            op = make_op(name_, params, dagger, regs)
             op | tuple(regs[m] for m in modes)
     return prog
 
